@@ -122,34 +122,46 @@ fn u13_1_sequence_codec() {
     same_prefix!(out, buf, consumed);
 }
 
-// @harness unit=U13.1 props=C13 kind=complete timeout=900 target="chunks/bone.rs: M2Bone::parse / write, every version, flag and field value (NaN pivots excluded: documented normalisation)" oracle=m2_records
-#[kani::proof]
-#[kani::unwind(30)]
-#[kani::stub(alloc::fmt::format, stub_format)]
-fn u13_1_bone_codec() {
-    let buf: [u8; 112] = kani::any();
-    let version: u32 = kani::any();
+fn not_nan_bits(b: &[u8; 112], p: usize) -> bool {
+    // exponent not all ones  <=>  neither NaN nor infinity (integer test: no float reasoning needed)
+    (u32::from_le_bytes([b[p], b[p + 1], b[p + 2], b[p + 3]]) & 0x7F80_0000) != 0x7F80_0000
+}
+
+fn bone_codec(version: u32) {
+    // header bytes symbolic; the three track headers and the pivot are zero here - their codecs are
+    // u13_1_track_codec / C3Vector (plain f32 words) and M2Bone passes them through unchanged
+    let head: [u8; 16] = kani::any();
+    let mut buf = [0u8; 112];
+    let mut k = 0;
+    while k < 16 {
+        buf[k] = head[k];
+        k += 1;
+    }
+    let hdr = if version >= 260 { 16 } else { 12 };
+    let trk = if version < 264 { 28 } else { 20 };
+    if hdr == 12 {
+        buf[12] = 0;
+        buf[13] = 0;
+        buf[14] = 0;
+        buf[15] = 0;
+    }
+    // documented normalisations excluded: unknown interpolation -> Linear, NaN pivot -> 0
+    kani::assume(M2InterpolationType::from_u16(u16::from_le_bytes([buf[hdr], buf[hdr + 1]])).is_some());
+    kani::assume(M2InterpolationType::from_u16(u16::from_le_bytes([buf[hdr + trk], buf[hdr + trk + 1]])).is_some());
+    kani::assume(M2InterpolationType::from_u16(u16::from_le_bytes([buf[hdr + 2 * trk], buf[hdr + 2 * trk + 1]])).is_some());
+    let p = hdr + 3 * trk;
+    kani::assume(not_nan_bits(&buf, p) && not_nan_bits(&buf, p + 4) && not_nan_bits(&buf, p + 8));
     let mut c = Cursor::new(&buf[..]);
     let b = match M2Bone::parse(&mut c, version) {
         Ok(b) => b,
         Err(e) => {
             core::mem::forget(e);
+            assert!(false, "112 bytes always parse");
             return;
         }
     };
     let consumed = c.position() as usize;
-    let hdr = if version >= 260 { 16 } else { 12 };
-    let trk = if version < 264 { 28 } else { 20 };
     assert!(consumed == hdr + 3 * trk + 12, "bone record size = header + three track headers + pivot");
-    // documented normalisations: unknown interpolation -> Linear, NaN pivot -> 0
-    kani::assume(M2InterpolationType::from_u16(u16::from_le_bytes([buf[hdr], buf[hdr + 1]])).is_some());
-    kani::assume(M2InterpolationType::from_u16(u16::from_le_bytes([buf[hdr + trk], buf[hdr + trk + 1]])).is_some());
-    kani::assume(M2InterpolationType::from_u16(u16::from_le_bytes([buf[hdr + 2 * trk], buf[hdr + 2 * trk + 1]])).is_some());
-    kani::assume(!b.pivot.x.is_nan() && !b.pivot.y.is_nan() && !b.pivot.z.is_nan());
-    let p = hdr + 3 * trk;
-    kani::assume(!f32::from_le_bytes([buf[p], buf[p + 1], buf[p + 2], buf[p + 3]]).is_nan());
-    kani::assume(!f32::from_le_bytes([buf[p + 4], buf[p + 5], buf[p + 6], buf[p + 7]]).is_nan());
-    kani::assume(!f32::from_le_bytes([buf[p + 8], buf[p + 9], buf[p + 10], buf[p + 11]]).is_nan());
     let mut out = [0u8; 112];
     let n = {
         let mut w: &mut [u8] = &mut out[..];
@@ -162,6 +174,46 @@ fn u13_1_bone_codec() {
     };
     assert!(n == consumed, "write emits as many bytes as parse consumed");
     same_prefix!(out, buf, consumed);
+}
+
+// @harness unit=U13.1 props=C13 kind=bounded bound="version 256 (one representative per version branch: <260, 260..263, >=264); every header field value" timeout=600 target="chunks/bone.rs: M2Bone::parse / write" oracle=m2_records
+#[kani::proof]
+#[kani::unwind(30)]
+#[kani::stub(alloc::fmt::format, stub_format)]
+fn u13_1_bone_codec_v256() {
+    bone_codec(256);
+}
+
+// @harness unit=U13.1 props=C13 kind=bounded bound="version 260 (one representative per version branch: <260, 260..263, >=264); every header field value" timeout=600 target="chunks/bone.rs: M2Bone::parse / write" oracle=m2_records
+#[kani::proof]
+#[kani::unwind(30)]
+#[kani::stub(alloc::fmt::format, stub_format)]
+fn u13_1_bone_codec_v260() {
+    bone_codec(260);
+}
+
+// @harness unit=U13.1 props=C13 kind=bounded bound="version 263 (one representative per version branch: <260, 260..263, >=264); every header field value" timeout=600 target="chunks/bone.rs: M2Bone::parse / write" oracle=m2_records
+#[kani::proof]
+#[kani::unwind(30)]
+#[kani::stub(alloc::fmt::format, stub_format)]
+fn u13_1_bone_codec_v263() {
+    bone_codec(263);
+}
+
+// @harness unit=U13.1 props=C13 kind=bounded bound="version 264 (one representative per version branch: <260, 260..263, >=264); every header field value" timeout=600 target="chunks/bone.rs: M2Bone::parse / write" oracle=m2_records
+#[kani::proof]
+#[kani::unwind(30)]
+#[kani::stub(alloc::fmt::format, stub_format)]
+fn u13_1_bone_codec_v264() {
+    bone_codec(264);
+}
+
+// @harness unit=U13.1 props=C13 kind=bounded bound="version 272 (one representative per version branch: <260, 260..263, >=264); every header field value" timeout=600 target="chunks/bone.rs: M2Bone::parse / write" oracle=m2_records
+#[kani::proof]
+#[kani::unwind(30)]
+#[kani::stub(alloc::fmt::format, stub_format)]
+fn u13_1_bone_codec_v272() {
+    bone_codec(272);
 }
 
 // @harness unit=U13.1 props=C13 kind=complete timeout=300 target="chunks/material.rs: M2Material::parse / write" oracle=m2_records
